@@ -66,20 +66,24 @@ METHOD_SETTINGS = [
     {"nonorthogonal_spacing_method": "perp_orthogonal_combined"},
 ]
 
+# Options that are not nonorthogonal_*: a regrid must ignore them (or refuse the call).
+# The benign ones are all put into the dict together - if any of them takes effect the
+# result moves away from the fresh build; the risky ones (which would probably make the
+# regrid raise if they took effect, hiding the others) are sampled two at a time.
+JUNK_BENIGN = {
+    "finecontour_Nfine": 77, "refine_width": 1.0e-3, "refine_atol": 1.0e-5,
+    "finecontour_atol": 1.0e-6, "N_norm_prefactor": 3.0,
+    "xpoint_poloidal_spacing_length": 0.123, "target_all_poloidal_spacing_length": 0.77,
+    "psi_spacing_separatrix_multiplier": 0.9, "xpoint_offset": 0.3,
+    "wall_point_exclude_radius": 0.05, "follow_perpendicular_rtol": 1.0e-3,
+    "finecontour_overdamping_factor": 0.5, "finecontour_extend_prefactor": 4.0,
+    "sfunc_checktol": 1.0e-3, "geometry_rtol": 1.0e-3, "poloidal_spacing_delta_psi": 0.02,
+}
 JUNK = [
-    {"finecontour_Nfine": 77},
-    {"y_boundary_guards": 2},
-    {"xpoint_poloidal_spacing_length": 0.123},
-    {"target_all_poloidal_spacing_length": 0.77},
-    {"refine_width": 1.0e-3},
-    {"nx_core": 7},
-    {"psinorm_sol": 1.15},
-    {"curvature_type": "bxkappa"},
-    {"refine_atol": 1.0e-5}, {"refine_methods": ["line"]},
-    {"poloidal_spacing_method": "monotonic"}, {"N_norm_prefactor": 3.0},
-    {"finecontour_atol": 1.0e-6}, {"finecontour_maxits": 2},
-    {"follow_perpendicular_rtol": 1.0e-3}, {"xpoint_offset": 0.3},
-    {"psi_spacing_separatrix_multiplier": 0.9}, {"wall_point_exclude_radius": 0.05},
+    {"y_boundary_guards": 2}, {"nx_core": 7}, {"psinorm_sol": 1.15},
+    {"curvature_type": "bxkappa"}, {"refine_methods": ["line"]},
+    {"poloidal_spacing_method": "monotonic"}, {"finecontour_maxits": 2},
+    {"ny_sol": 12}, {"orthogonal": True}, {"shiftedmetric": False},
 ]
 
 BAD = [
@@ -132,9 +136,10 @@ def make_case(rng, allow_method_change=False, faults_ok=False, geoms=GEOMS, np_c
         elif k == "junk":
             s = dict(rng.choice(pool))
             # several non-nonorthogonal options at once: none of them may take effect
-            junk = {}
-            for j in rng.sample(JUNK, 4):
-                junk.update(j)
+            junk = dict(JUNK_BENIGN)
+            if rng.random() < 0.5:
+                for j in rng.sample(JUNK, 2):
+                    junk.update(j)
             ops.append({"op": "regrid", "s": s, "junk": junk})
             visited.append(s)
         elif k == "bad":
